@@ -301,6 +301,15 @@ class Queue:
         self._log('put', item)
         _hub.yield_point()
 
+    def put_quiet(self, item):
+        """Harness-internal put: no log record, no schedule point (used for wake-ups that belong
+        to another primitive, e.g. a websocket being closed)."""
+        self.items.append(item)
+        self.unfinished_tasks += 1
+        if self.waiters:
+            w = self.waiters.pop(0)
+            _hub._make_ready(w, None)
+
     def put_nowait(self, item):
         self.put(item)
 
